@@ -386,3 +386,14 @@ def find_match(toks, scrutinee, start=0, end=None):
     pat = ["match"] + scrutinee + ["{"]
     i = find_seq(toks, pat, start, end)
     return -1 if i < 0 else i + len(pat) - 1
+
+
+def all_fns(toks, start=0, end=None):
+    """every `fn name ... { body }` in [start, end): list of (name, open, close); nested fns are listed too"""
+    end = len(toks) if end is None else end
+    out = []
+    for i in find_all(toks, ["fn", ("id", None)], start, end):
+        r = item_body(toks[:end], "fn", toks[i + 1][1], i)
+        if r and r[0] > i and find_seq(toks, ["fn"], i + 1, r[0]) < 0:
+            out.append((toks[i + 1][1], r[0], r[1]))
+    return out
